@@ -29,31 +29,51 @@ pub struct Gf {
 
 impl Gf {
     pub fn new() -> Gf {
-        let mut mul = vec![[0u8; 256]; 256];
-        for a in 0..256 {
-            for b in 0..256 {
-                mul[a][b] = gf_mul_slow(a as u8, b as u8);
-            }
-        }
-        let mut inv = [0u8; 256];
-        for a in 1..256 {
-            for b in 1..256 {
-                if mul[a][b] == 1 {
-                    inv[a] = b as u8;
-                }
-            }
-        }
+        // exp/log from the generator alpha = 2 under the polynomial (255 shift-and-xor steps)
         let mut exp = [0u8; 256];
+        let mut log = [0usize; 256];
         let mut x = 1u8;
         for i in 0..256 {
             exp[i] = x;
+            if i < 255 {
+                log[x as usize] = i;
+            }
             x = gf_mul_slow(x, 2);
+        }
+        let mut inv = [0u8; 256];
+        for a in 1..256 {
+            inv[a] = exp[(255 - log[a]) % 255];
+        }
+        // the full product table is built by shift-and-xor for every pair (not from exp/log, so
+        // the two constructions cross-check each other below); skipped under Miri where 65 536
+        // interpreted slow multiplications would dominate the run: `m` then multiplies directly
+        let mut mul = vec![];
+        if !cfg!(miri) {
+            mul = vec![[0u8; 256]; 256];
+            for a in 0..256 {
+                for b in 0..256 {
+                    mul[a][b] = gf_mul_slow(a as u8, b as u8);
+                }
+            }
+            for a in 1..256 {
+                assert_eq!(mul[a][inv[a] as usize], 1, "harness: reference field self-check");
+                assert_eq!(mul[a][2], exp[(log[a] + 1) % 255], "harness: reference field self-check");
+            }
         }
         Gf { mul, inv, exp }
     }
     #[inline]
     pub fn m(&self, a: u8, b: u8) -> u8 {
+        if self.mul.is_empty() {
+            return gf_mul_slow(a, b);
+        }
         self.mul[a as usize][b as usize]
+    }
+}
+
+impl Default for Gf {
+    fn default() -> Self {
+        Gf::new()
     }
 }
 
